@@ -57,11 +57,24 @@ impl RawParameters {
         let mut recursion_level = self.recursion_level + 1;
         let mut globals = self.globals.clone();
         if definition.is_resource_name() {
-            globals.remove("_name");
-            globals.extend(definition.split_into_parameters());
-            globals.remove("inv");
-            globals.remove("omit_fwd");
-            globals.remove("omit_inv");
+            let mut args = definition.split_into_parameters();
+            // `Op::op()` calls `next()` once more for an invocation already handled here
+            let already_entered = args.contains_key("_name") && globals.get("_name") == args.get("_name");
+            if !already_entered {
+                // References to the caller's parameters are resolved now, in the caller's
+                // environment, so names may be reused freely at the next level (`a=$a`)
+                for (key, value) in args.iter_mut() {
+                    let this = BTreeMap::from([(key.clone(), value.clone())]);
+                    if let Ok(Some(resolved)) = super::parsed_parameters::chase(&globals, &this, key) {
+                        *value = resolved;
+                    }
+                }
+                globals.remove("_name");
+                globals.extend(args);
+                globals.remove("inv");
+                globals.remove("omit_fwd");
+                globals.remove("omit_inv");
+            }
             recursion_level += 1;
         }
         let invocation = self.invocation.clone();
